@@ -419,10 +419,12 @@ type vfToolkit struct {
 	ep13  map[string]uint16
 	cid   map[string][]byte // CID to put on records sent by name
 	conns map[string]*Conn
+	// padLen: CBC padding length byte of sealed records (-1: minimal, as the library itself pads)
+	padLen int
 }
 
 func vfNewToolkit(p *vfPair) (*vfToolkit, error) {
-	t := &vfToolkit{k12: map[string]ref.Keys12{}, sec13: map[string][]byte{}, ep13: map[string]uint16{}, cid: map[string][]byte{},
+	t := &vfToolkit{padLen: -1, k12: map[string]ref.Keys12{}, sec13: map[string][]byte{}, ep13: map[string]uint16{}, cid: map[string][]byte{},
 		conns: map[string]*Conn{"c": p.C.Conn, "s": p.S.Conn}}
 	t.cid["c"] = vfCommon(p.S.Conn).LocalConnectionID()
 	t.cid["s"] = vfCommon(p.C.Conn).LocalConnectionID()
@@ -507,7 +509,7 @@ func (t *vfToolkit) Seal(from string, epoch uint16, seq uint64, ct uint8, conten
 		explicit = append(binary.BigEndian.AppendUint64(nil, nonceSeed), binary.BigEndian.AppendUint64(nil, ^nonceSeed)...)
 	}
 
-	return ref.Seal12(t.s12, t.k12[from], r, plain, explicit, -1)
+	return ref.Seal12(t.s12, t.k12[from], r, plain, explicit, t.padLen)
 }
 
 // SealRawCBC encrypts a chosen plaintext (no MAC) under the sender's CBC key.
